@@ -25,6 +25,11 @@ impl PingOnDrop {
         ensures *r == self.handle(),
 //@ enditem
 //@ close
+//@ region channel_fullping props=C04
+/// the loop has been woken because a try_send found the queue full (opaque: it IS a write of the wake-up, but callers must
+/// not use it as the wake-up that follows their own enqueue)
+#[verifier::opaque] pub closed spec fn w_full_ping(fd: int) -> bool { crate::rustix::io::w_write_called(fd, crate::sources::ping::eventfd::ne_bytes(2)) }
+//@ endregion
 //@ region channel_mustcall_specs props=C04
 /// the event has been handed to the channel's callback
 pub uninterp spec fn w_event_delivered<T>(e: Event<T>) -> bool;
@@ -58,7 +63,7 @@ impl<T> SyncSender<T> {
 //@ close
 //@ open src/sources/channel.rs / impl SyncSender<T>
 //@ item src/sources/channel.rs / impl SyncSender<T> / fn send props=C04 ret=r
-//@ closure <<|()| self.ping.ping()>>
+//@ closure? <<|()| self.ping.ping()>>
 -> (u: ()) requires
             forall|f: int, c: u64| #[trigger] crate::sources::ping::eventfd::may_send(f, c) <==> (f == self.wake_fd() && c == 2),
             forall|f: int, b: Seq<u8>| #[trigger] crate::rustix::io::may_write(f, b) <==> (f == self.wake_fd() && b == crate::sources::ping::eventfd::ne_bytes(2)),
@@ -70,7 +75,7 @@ impl<T> SyncSender<T> {
             // C04 ("a blocking synchronous send completes as long as the loop keeps dispatching"): the sender may PARK in the
             // queue's blocking send only after it has woken the loop -- on a full (or rendezvous) queue nobody else would ever
             // make room
-            may_block_send(&self.queue()) <==> crate::rustix::io::w_write_called(self.wake_fd(), crate::sources::ping::eventfd::ne_bytes(2)),
+            may_block_send(&self.queue()) <==> w_full_ping(self.wake_fd()),
         ensures
             r is Ok ==> w_sync_sent(&self.queue()) && crate::rustix::io::w_write_called(self.wake_fd(), crate::sources::ping::eventfd::ne_bytes(2)),
 //@ enditem
@@ -82,8 +87,14 @@ impl<T> SyncSender<T> {
         ensures
             // C04: accepted, or rejected only because the queue is full => the loop has been woken (so a blocked or retrying
             // sender is not stranded)
-            (r is Ok || (r matches Err(e) && e is Full)) ==> crate::rustix::io::w_write_called(self.wake_fd(), crate::sources::ping::eventfd::ne_bytes(2)),
+            // (on Full only the opaque fact "woken because the queue was full" is handed out, not the plain write witness: a
+            // caller that goes on to enqueue by other means -- SyncSender::send's blocking send -- then has to wake the loop
+            // AGAIN, after its message is in the queue, to establish the witness its own postcondition asks for)
+            r is Ok ==> crate::rustix::io::w_write_called(self.wake_fd(), crate::sources::ping::eventfd::ne_bytes(2)),
+            (r matches Err(e) && e is Full) ==> w_full_ping(self.wake_fd()),
             r is Ok ==> w_sync_sent(&self.queue()),
+//@ entry
+        proof { reveal(w_full_ping); }
 //@ enditem
 //@ close
 //@ item src/sources/channel.rs / struct Channel props=C04,C02
